@@ -59,8 +59,11 @@ type Contract struct {
 }
 
 type AfterClause struct {
-	Match string // compacted source text of the call expression
+	Match string // compacted source text of the call expression (assertafter) or assignment statement (assertat)
 	Cl    Clause
+	Stmt  bool // assertat: evaluated after the store(s) of the matching assignment statement
+	Line  int  // source line of the matched assignment (assertat)
+	File  string
 }
 
 type TableFact struct {
@@ -77,7 +80,7 @@ type ExternAssume struct {
 	Info *types.Info
 }
 
-var kwRe = regexp.MustCompile(`^(func|props|variant|ghost|requires|ensures|invariant|decreases|assigns|safe|summary|alias|nonnil|extern|opt|lemma|assume|callreq|trusted|uninterpreted|assertafter|tablefact)\b`)
+var kwRe = regexp.MustCompile(`^(func|props|variant|ghost|requires|ensures|invariant|decreases|assigns|safe|summary|alias|nonnil|extern|opt|lemma|assume|callreq|trusted|uninterpreted|assertafter|assertat|tablefact|typeinv)\b`)
 var tagRe = regexp.MustCompile(`^\[([A-Za-z0-9, ]+)\]\s*`)
 var nameRe = regexp.MustCompile(`^([a-zA-Z_][a-zA-Z0-9_\-]*):\s+`)
 
@@ -150,6 +153,15 @@ func (e *Engine) loadContracts(file *ast.File) error {
 			}
 			props, name, rest := splitTagName(strings.TrimSpace(p[1]))
 			e.tableFacts = append(e.tableFacts, &TableFact{Global: p[0], Cl: Clause{Name: name, Props: props, Src: rest, Line: d.line}})
+		case "typeinv":
+			// typeinv <Type> name: <expr over v>   -- ASSUMED for every value of that element type read from a slice/array of
+			// structs (the memory model keeps such arrays opaque); listed as an assumption, never proved
+			p := strings.SplitN(d.rest, " ", 2)
+			if len(p) != 2 {
+				return fmt.Errorf("line %d: typeinv TYPE name: expr", d.line)
+			}
+			props, name, rest := splitTagName(strings.TrimSpace(p[1]))
+			e.typeInvs = append(e.typeInvs, &TableFact{Global: p[0], Cl: Clause{Name: name, Props: props, Src: rest, Line: d.line}})
 		case "uninterpreted":
 			for _, n := range strings.Fields(d.rest) {
 				e.uninterpSpec[n] = true
@@ -229,8 +241,8 @@ func (e *Engine) loadContracts(file *ast.File) error {
 					cur.CallReqs = map[string][]Clause{}
 				}
 				cur.CallReqs[p[0]] = append(cur.CallReqs[p[0]], Clause{Name: name, Props: props, Src: rest, Line: d.line})
-			case "assertafter":
-				// assertafter "<call text>" [props] name: expr
+			case "assertafter", "assertat":
+				// assertafter "<call text>" [props] name: expr ; assertat "<assignment text>" [props] name: expr
 				delim := "\""
 				if strings.HasPrefix(d.rest, "`") {
 					delim = "`"
@@ -246,7 +258,7 @@ func (e *Engine) loadContracts(file *ast.File) error {
 				if name == "" {
 					name = strconv.Itoa(counts[d.kw])
 				}
-				cur.AssertAfter = append(cur.AssertAfter, AfterClause{Match: match, Cl: Clause{Name: name, Props: props, Src: rest, Line: d.line}})
+				cur.AssertAfter = append(cur.AssertAfter, AfterClause{Match: match, Stmt: d.kw == "assertat", Cl: Clause{Name: name, Props: props, Src: rest, Line: d.line}})
 			case "invariant", "decreases":
 				p := strings.SplitN(d.rest, " ", 2)
 				if len(p) != 2 {
@@ -335,6 +347,7 @@ type SpecEnv struct {
 	ct    *Contract
 	depth int
 	addrs map[string]PtrVal // addresses of address-taken locals
+	entryVars map[string]Value // parameter values at function entry (old(p) of a reassigned parameter p)
 }
 
 func (env *SpecEnv) child() *SpecEnv {
@@ -761,6 +774,9 @@ func (env *SpecEnv) callExpr(x *ast.CallExpr) Value {
 		}
 		n := env.child()
 		n.st = env.old
+		for k, v := range env.entryVars {
+			n.vars[k] = v
+		}
 		return n.eval(x.Args[0])
 	case "implies":
 		return Implies(env.evalBool(x.Args[0]), env.evalBool(x.Args[1]))
